@@ -22,11 +22,13 @@ def random_target(rng):
     """valid origin-form targets: escaped slashes and spaces, multi-byte escapes, ';', '+', '//', dot segments"""
     segs = []
     for _ in range(rng.randint(1, 5)):
-        kind = rng.choice(["plain", "esc_slash", "esc_space", "multibyte", "semi", "plus", "empty", "dot", "dotdot", "mixed", "upper"])
+        kind = rng.choice(["plain", "esc_slash", "esc_space", "multibyte", "semi", "plus", "empty", "dot", "dotdot", "mixed", "upper",
+                           "paren", "quote", "star", "bracket", "bang", "subdelims", "colonat"])
         w = "".join(rng.choice(UNRESERVED) for _ in range(rng.randint(1, 6)))
         segs.append({"plain": w, "esc_slash": w + "%2F" + w, "esc_space": w + "%20" + w, "multibyte": "%E2%82%AC" + w + "%C3%A9",
                      "semi": w + ";v=1;" + w, "plus": w + "+" + w, "empty": "", "dot": ".", "dotdot": "..", "mixed": "%2f" + w + "%41",
-                     "upper": w.upper() + "%3A%40"}[kind])
+                     "upper": w.upper() + "%3A%40", "paren": w + "(1)", "quote": "it's" + w, "star": "*", "bracket": "[" + w + "]",
+                     "bang": w + "!", "subdelims": "$&'()*+,;=" + w, "colonat": w + ":@" + w}[kind])
     path = "/" + "/".join(segs)
     q = ""
     if rng.random() < 0.6:
